@@ -7,15 +7,7 @@ import gen
 import vlib
 
 MANIFEST = {
-    "text": "Coq theorems over the VM model (main loop and the four bulk-copy loops + return-data copy inside opcode bodies), for every "
-            "program, configuration and folding function: a never-stopping watchdog influences nothing but the poll counter (machines "
-            "differing only in the polling interval stay equal in all states and errors); once the answer stream has turned to stop, "
-            "the next main-loop poll ends the run at once and comes within one polling interval of iterations; iterations <= polls * "
-            "interval along every run; opcode bodies never un-make polls. The eleven polled loops of all stages are inventoried from the "
-            "Rust source on every run (counter, interval binding, stop branch). The later stages' behaviour is searched: the whole "
-            "analysis is stopped at EVERY poll index k of small contracts (stratified on larger ones) and intervals 1..1000, checking "
-            "stopped-by-watchdog error, no layout, bounded further polls, and equality with the unmonitored result when never stopped; "
-            "per-stage poll counts are compared with independent work measures.",
+    "text": "Coq theorems over the VM model (main loop and the four bulk-copy loops + return-data copy inside opcode bodies), for every program, configuration and folding function: a never-stopping watchdog influences nothing but the poll counter (machines differing only in the polling interval stay equal in all states and errors); once the answer stream has turned to stop, the next main-loop poll ends the run at once and comes within one polling interval of iterations; iterations <= polls * interval along every run; opcode bodies never un-make polls. The eleven polled loops of all stages are inventoried from the Rust source on every run (counter, interval binding, stop branch, and that no `continue`/`break` lies between the poll and the counter bump, so the counter advances on EVERY iteration); for that loop scheme (PolledLoop.v) Coq proves, for every item list, body, interval and counter: never told to stop => the plain fold's result, polls = the poll points; a watchdog that has turned to stop ends the loop at the next poll point with exactly one more poll; n iterations make between n div k and n div k + 1 polls. The later stages' behaviour is searched: the whole analysis is stopped at EVERY poll index k of small contracts (stratified on larger ones) and intervals 1..1000, checking stopped-by-watchdog error, no layout, bounded further polls, and equality with the unmonitored result when never stopped; per-stage poll counts are compared with independent work measures.",
     "note": "Trusted: Coq kernel; translator T1/T9/T7; harness CountingWatchdog. The type-checker stages' polling is decided by the "
             "source inventory + exhaustive stop-at-k search, not by a theorem (their loops are not modelled): partial for those stages.",
     "technique": "Coq proof (relational invariance under the polling interval, poll accounting invariant, stop-within-interval by "
